@@ -272,7 +272,11 @@ pub fn perform(parser: &CooklangParser, input: &str, op: &Op, faults: bool, dept
     let mut writer: Option<WriterReport> = None;
     let outcome = match &op.kind {
         OpKind::Parse { via: Via::Direct, cb, .. } => guarded(|| {
-            let r = parser.parse_with_options(input, make_options(cb));
+            // the plain entry point when there are no callbacks: that is what callers use
+            let r = match cb {
+                None => parser.parse(input),
+                Some(_) => parser.parse_with_options(input, make_options(cb)),
+            };
             fp_result(&r, input)
         }),
         OpKind::Parse { via: Via::Adapter, cb, truncate } => {
@@ -289,7 +293,10 @@ pub fn perform(parser: &CooklangParser, input: &str, op: &Op, faults: bool, dept
             })
         }
         OpKind::Metadata { via: Via::Direct, cb } => guarded(|| {
-            let r = parser.parse_metadata_with_options(input, make_options(cb));
+            let r = match cb {
+                None => parser.parse_metadata(input),
+                Some(_) => parser.parse_metadata_with_options(input, make_options(cb)),
+            };
             fp_result(&r, input)
         }),
         OpKind::Metadata { via: Via::Adapter, cb } => {
@@ -410,6 +417,14 @@ pub fn perform(parser: &CooklangParser, input: &str, op: &Op, faults: bool, dept
     };
     if let Outcome::Done(s) = &outcome {
         sim::obs("result", fnv(s.as_bytes()));
+        // R line: (task, depth, operation, input) -> result, independent of the interleaving
+        let h = fnv(s.as_bytes());
+        let t = sim::task_id();
+        sim::with(|c| {
+            if let Some(log) = c.log.as_mut() {
+                log.push(format!("R {t} {depth} {:016x} {h:016x}", fnv(format!("{}|{}|{}", op.parser, op.kind_key(), op.input).as_bytes())));
+            }
+        });
     }
     sim::pop_op();
     Observed {
@@ -535,6 +550,13 @@ pub struct RefPhase {
 /// Phase 1: build the parsers and observe every key once, cleanly, each on a
 /// never-used instance of the configuration.
 pub fn reference_phase(sc: &Scenario) -> RefPhase {
+    reference_phase_ordered(sc, false)
+}
+
+/// `reverse`: observe the keys in the opposite order. Process-wide state keyed
+/// imprecisely (a static cache) gives order-dependent references; two fresh
+/// processes that differ only in this order must produce the same table.
+pub fn reference_phase_ordered(sc: &Scenario, reverse: bool) -> RefPhase {
     sim::with(|s| {
         *s = sim::SimCtx::new();
     });
@@ -564,6 +586,22 @@ pub fn reference_phase(sc: &Scenario) -> RefPhase {
         }
         need.push(clean);
     }
+    if reverse {
+        need.reverse();
+    }
+    // Isolation between runs: one ordinary, normally completing parse before the first
+    // reference, so that whatever an earlier run's last operation left behind on this OS
+    // thread is not attributed to this run (leaks *within* the run are what the phases
+    // below detect; leaks across runs fall back to the prefix replay).
+    {
+        let p = template_clone(&sc.parsers[0]);
+        let _ = catch_unwind(AssertUnwindSafe(|| {
+            let _ = p.parse(">> a: b\nflush @x{1%g} ~{1%min}\n");
+            let _ = p.parse_metadata(">> a: b\n");
+        }));
+        let _ = sim::take_last_panic();
+    }
+    let second_pass: Vec<Op> = need.iter().rev().cloned().collect();
     for op in need {
         let key = full_key(sc, &op);
         if env.refs.contains_key(&key) {
@@ -592,6 +630,29 @@ pub fn reference_phase(sc: &Scenario) -> RefPhase {
             sim::violation("history-dependence", &key, "reference", format!("a clean observation on a never-used parser differs from an earlier clean observation of the same (configuration, operation, input) in this process: {prev:016x} vs {h:016x}"));
         }
         env.refs.insert(key, fp);
+    }
+    // Second pass in the opposite order: a clean observation on a never-used parser
+    // must not depend on which other clean observations preceded it.
+    let mut seen2 = std::collections::BTreeSet::new();
+    let mut prev_key = String::from("<start of pass>");
+    for op in second_pass {
+        let key = full_key(sc, &op);
+        if !seen2.insert(key.clone()) {
+            continue;
+        }
+        let fresh = template_clone(&sc.parsers[op.parser]);
+        cooklang::verif_seam::reseed(crate::rng::mix2(sc.hash_seed ^ 0x2222, seen2.len() as u64));
+        let o = perform(&fresh, &sc.inputs[op.input], &op, false, 0);
+        let fp = match o.outcome {
+            Outcome::Done(s) => s,
+            Outcome::Unwound => "UNWOUND-IN-REFERENCE".into(),
+        };
+        if let Some(first) = env.refs.get(&key) {
+            if *first != fp {
+                sim::violation("history-dependence", &key, "reference", format!("two clean observations on never-used parsers differ depending on what was observed before (second time right after {prev_key}): {}", first_diff(first, &fp)));
+            }
+        }
+        prev_key = key;
     }
     let violations = sim::with(|s| std::mem::take(&mut s.violations));
     let ref_keys = env.refs.len();
